@@ -159,9 +159,12 @@ func (s *Session) Explore(h Harness) (*Report, error) {
 		}
 	}
 	if h.Panics {
-		for msg, n := range rep.Panics {
-			_ = n
+		for msg := range rep.Panics {
 			rep.PanicViolations = append(rep.PanicViolations, msg)
+		}
+	} else {
+		for msg, n := range rep.Panics {
+			rep.Inconclusive = append(rep.Inconclusive, fmt.Sprintf("%d paths ended in a panic the harness does not expect: %s", n, msg))
 		}
 	}
 	return rep, nil
